@@ -67,6 +67,37 @@ func runIsland(rep *Report, repo, name, pkgDir, testFile, runRe, bound string, t
 		rep.Violations = append(rep.Violations, fmt.Sprintf("VIOLATION property=%s replay=%s no-failing-input-found", rep.Prop.ID, path))
 		return
 	}
+	// failures of the form "<key> :: <text>" may be listed as known findings
+	// (obligation island[<name>]/<key>); they are printed as KNOWN-FINDING and do not fail the check
+	if len(io.Failures) > 0 {
+		known := map[string]Finding{}
+		for _, f := range loadFindings() {
+			if f.Kind == "finding" && f.Property == rep.Prop.ID {
+				known[f.Obligation] = f
+			}
+		}
+		var rest []string
+		seen := map[string]bool{}
+		for _, fl := range io.Failures {
+			key := fl
+			if i := strings.Index(fl, " :: "); i >= 0 {
+				key = fl[:i]
+			}
+			ob := "island[" + name + "]/" + key
+			if kf, ok := known[ob]; ok {
+				if !seen[ob] {
+					seen[ob] = true
+					rep.Known = append(rep.Known, fmt.Sprintf("KNOWN-FINDING: property=%s %s (%s)", rep.Prop.ID, kf.Text, ob))
+				}
+				continue
+			}
+			rest = append(rest, fl)
+		}
+		io.Failures = rest
+		if len(rest) == 0 {
+			runErr = nil
+		}
+	}
 	if len(io.Failures) > 0 || runErr != nil {
 		b.Result = fmt.Sprintf("%d failing cases", len(io.Failures))
 		b.Samples = io.Failures
